@@ -234,6 +234,17 @@ class Backend:
         ids = set(self.conns[cs].execute(select(self.t.c.id).where(expr)).scalars())
         return "".join("1" if i in ids else "0" for i in range(n))
 
+    def matched_again(self, cs, expr, n):
+        """the SAME expression object compiled again: stringified (as logging does), then reused
+        in a second statement executed without the compiled cache"""
+        from sqlalchemy import select
+
+        stmt = select(self.t.c.id, self.t.c.s).where(expr)
+        str(stmt.compile(dialect=self.conns[cs].dialect))
+        rows = self.conns[cs].execution_options(compiled_cache=None).execute(stmt).all()
+        ids = {r[0] for r in rows}
+        return "".join("1" if i in ids else "0" for i in range(n))
+
     def raw_like(self, cs, text, pat, esc):
         c = self.conns[cs].connection.driver_connection
         if esc is None:
@@ -298,11 +309,15 @@ def check_case(be, case):
     n = len(case["rows"])
     cs_bits = be.matched(True, expr, n)
     ci_bits = be.matched(False, expr, n)
+    cs_again = be.matched_again(True, expr, n)
     exp = expected_bits(case)
     why = None
+    again = ""
+    if cs_bits == exp and cs_again != exp:
+        cs_bits, again = cs_again, "[same expression object compiled a second time] "
     if cs_bits != exp:
         k = [i for i in range(n) if cs_bits[i] != exp[i]][0]
-        why = "%s%s%s(%r, escape=%r, autoescape=%r) on row %r: SQLite %s, Python test on %r says %s" % (
+        why = again + "%s%s%s(%r, escape=%r, autoescape=%r) on row %r: SQLite %s, Python test on %r says %s" % (
             "NOT " if case["neg"] else "",
             "i" if case["icase"] else "",
             case["kind"],
